@@ -36,10 +36,11 @@ PROVED = ['mul_with_mod_spec [P]: for f canonical of degree n, a, b canonical of
           'inv_diff_dual [P]: on every n x n x n table (n >= 1, nothing else assumed), if get_inv_diff returns (l, N) then an integer vector v lies in the row lattice of N iff for every integer '
           'vector w the value trace(mul v w) returned by MultTable::trace on MultTable::mul is divisible by l, i.e. N / l is the dual lattice of the order for the trace form; '
           'inv_diff_dual_mx [P]: the same as v * Tr = l * c with Tr_ij = trace(w_i w_j); inv_diff_scaled_inverse [P]: N is the normal form of an integer matrix Int with Int Tr = Tr Int = l > 0; '
-          'trace_mul_form [P]: trace(mul v w) = sum_ij v_i w_j Tr_ij']
+          'trace_mul_form [P]: trace(mul v w) = sum_ij v_i w_j Tr_ij',
+          'get_mult_table_total / get_mult_table_iff [P]: for canonical f of degree n and a full-rank n x n rational basis b (det != 0), Order::get_mult_table returns a table IF AND ONLY IF '
+          'every product b_i b_j mod f has integer coordinates on b (the Z-span of b is closed under multiplication); the function has no unbounded loop, so otherwise it panics (integrality assertion)']
 NOT_PROVED = ['totality of get_inv_diff (it returns iff the trace form is non-degenerate; inv_diff_dual is a partial-correctness statement)',
-              'to_z_basis with rational coordinates (oracle on every case)',
-              'totality of get_mult_table for lattices closed under multiplication (partial correctness only: statements carry get_mult_table b f = Done t)']
+              'to_z_basis with rational coordinates (oracle on every case)']
 ASSUMPTIONS = ['solve_linear_system / determinant / inv are used through the C18 theorems of area/linalg (solve_ok) merged into this branch',
                'Algebraic.as_coefs with the zero polynomial is not run (the frozen model would build a list of usize::MAX entries; the code aborts with capacity overflow)']
 
